@@ -12,21 +12,28 @@ import vlib
 from gen import c14gen as G
 
 ID = "C14"
-PROPS = ["IsoVerif/Props/C14.lean", "IsoVerif/Props/C14Corrector.lean"]
-TARGETS = ["IsoVerif.Props.C14", "IsoVerif.Props.C14Corrector"]
-GEN_DEPS = ["Prims", "Enums", "EventClasses", "Strategies", "Corrector"]
+PROPS = ["IsoVerif/Props/C14.lean", "IsoVerif/Props/C14Corrector.lean", "IsoVerif/Props/C14Illumina.lean"]
+TARGETS = ["IsoVerif.Props.C14", "IsoVerif.Props.C14Corrector", "IsoVerif.Props.C14Illumina"]
+GEN_DEPS = ["Prims", "Enums", "EventClasses", "Strategies", "Corrector", "Illumina"]
 LEVEL = "proof"
 RULE = ("model = Model/Bed.lean + Model/Corrector.lean; correspondence: real ExonCorrector (correct_assigned_read, "
         "correct_misalignments -> event map, process_events with explicit event maps incl. a malformed stream), real "
         "OverlappingFeaturesProfileConstructor.match_genomic_features (exhaustive small universe + random), real BEDPrinter "
         "(lines compared byte for byte), real set_splice_correction_options for all strategies; a case is non-trivial when "
         "the model returns a non-error value that differs from the uncorrected input (or, for BED, a written line) and "
-        "model == implementation; distinct by (op, input)")
+        "model == implementation; distinct by (op, input); Model/Illumina.lean: real IlluminaExonCorrector.correct_exons "
+        "(from_data with an ordered junction list, with a Python set, and built by the real constructor on two synthetic "
+        "short-read BAMs; exhaustive small universes of read layouts x ordered junction lists + threshold universe + random), "
+        "real static scoring methods, real get_introns / merge_dictionaries")
 TRUSTED = ["Gen/Corrector.lean, Gen/Strategies.lean: tables extracted from src/exon_corrector.py / isoquant.py by translate.py "
            "(shape of the event chain checked by the translator; presets cross-checked against the real function each run)",
            "get_error_count (pysam aligned pairs) and JunctionComparator are inputs of the model (quantified over); "
            "gene_info lookups (transcript_region, all_isoforms_introns, intron_profiles.features) are taken from the real GeneInfo",
-           "IlluminaExonCorrector.correct_exons is not modelled: search only (in-process oracle)"]
+           "Gen/Illumina.lean: constants, the four static predicates, the site distance and the two acceptance tests of "
+           "IlluminaExonCorrector.correct_exons are generated (gen_illumina; shape of correct_exons checked); the loops are "
+           "hand-modelled and tied by correspondence",
+           "pysam.AlignmentFile.find_introns / fetch (junction counts per short-read file) is an input of the model; the "
+           "enumeration order of the Python set `short_introns` is an input of the model (universally quantified)"]
 ASSUMPTIONS = ["CPython int semantics = Lean Int",
                "read_exons of an alignment are gapped (consecutive blocks separated by >= 1 reference base): C16's output invariant",
                "events name index ranges of the read introns (0 <= r0 <= r1 < #read introns) or carry the absent/undefined sentinels",
@@ -34,6 +41,8 @@ ASSUMPTIONS = ["CPython int semantics = Lean Int",
                "AlignmentInfo.read_start/read_end are the ends of read_exons after the polyA/polyT-exon trimming, and params.delta is "
                "the --delta given on the command line (glue outside the model: watched by the pipeline oracle with reads whose "
                "polyT head / polyA tail is a separate terminal exon and with explicit --delta 0 / --delta 2 runs)",
+               "short-read junctions are well formed (start <= end): follows from pysam's find_introns contract "
+               "(`illumina_short_introns_wf`); needed for `illumina_bed_valid` only",
                "no assumption on JunctionComparator / get_error_count is needed for BED validity any more: the validity gate "
                "added by the fix: commit is modelled and `corrected_always_valid` holds for every event list; the oracle still "
                "validates every BED record of the pipeline runs"]
@@ -509,6 +518,9 @@ def correspondence(ctx):
     finally:
         bed.close()
 
+    # ---- IlluminaExonCorrector
+    corr_illumina(ctx)
+
     # ---- run the model on the collected cases
     lines = [vlib.req("C14." + op, **kw) for op, kw, _ in cases]
     outs = ctx.driver.run(lines)
@@ -524,6 +536,185 @@ def correspondence(ctx):
             nt = not vlib.is_err(mo) and bool(mo)
         if op == "build_event_map" and isinstance(mo, list):
             mo = sorted(mo, key=lambda x: x[0])
+        _record(ctx, op, kw, mo, io, nt)
+
+
+# ------------------------------------------------------------------------------------------------
+# IlluminaExonCorrector: model (Model/Illumina.lean) vs the real class
+
+def ill_real(short, exons, as_set=False):
+    """real correct_exons; `short` is handed over as an ordered list (from_data iterates it in that order) or as a Python
+    set; -> (the order in which `for s in self.short_introns` enumerates, result)"""
+    M = _impl()
+    cont = [tuple(s) for s in short]
+    corr = M["IL"].IlluminaExonCorrector.from_data(set(cont) if as_set else cont)
+    order = [list(s) for s in corr.short_introns]
+    out = guarded(lambda: vlib.canon(corr.correct_exons([tuple(e) for e in exons])), 2.0)
+    return order, out
+
+
+ILL_FIXED = [   # inputs of the Lean witnesses / examples (Props/C14Illumina.lean)
+    ([(9, 19)], [(10, 12), (20, 30)]), ([(8, 14), (18, 22)], [(10, 12), (25, 40)]), ([], [(1, 5), (6, 9)]),
+    ([(101, 204)], [(1, 100), (201, 300)]), ([(97, 200)], [(1, 100), (201, 300)]),
+    ([(101, 130), (151, 205)], [(1, 100), (201, 300)]), ([(11, 24)], [(1, 10), (21, 23), (31, 40)]),
+    ([(11, 14), (18, 45)], [(1, 10), (21, 23), (31, 40), (50, 60)]), ([(1, 2)], []), ([], [(5, 9)]),
+    ([(35, 33)], [(1, 29), (41, 50)]), ([(0, 0), (3, 9)], [(-5, -1), (4, 9), (20, 30)]),
+]
+
+
+def ill_bam_cases(ctx, seed):
+    """the real constructor on two synthetic short-read BAMs: get_introns / merge_dictionaries / the +1 shift, then
+    correct_exons with the real container; -> list of (op, kw, impl)"""
+    import pysam
+    M = _impl()
+    ds, sh, truth, short = G.illumina_dataset(seed)
+    d = vlib.scratch_dir("isoverif_c14ill_")
+    res = []
+    try:
+        reads = list(sh.reads)
+        half = [r for k, r in enumerate(reads) if k % 3 != 0]
+        other = [r for k, r in enumerate(reads) if k % 3 == 0 or k % 5 == 0]     # overlapping: counts add up
+        p1 = sh.write(os.path.join(d, "s1"), bam_name="s1.bam", reads=half, write_ref=False)["bam"]
+        p2 = sh.write(os.path.join(d, "s2"), bam_name="s2.bam", reads=other, write_ref=False)["bam"]
+        windows = [(0, 24000), (5000, 9000), (6000, 6400)]
+        for (a, b) in windows:
+            for files in ([p1, p2], [p1], [p2, p1, p2]):
+                per_file = []
+                for fpath in files:
+                    with pysam.AlignmentFile(fpath, "rb") as af:
+                        cnt = af.find_introns(af.fetch("chr1", start=a, stop=b))
+                    per_file.append([[list(k), int(v)] for k, v in cnt.items()])
+                corr = guarded(lambda: M["IL"].IlluminaExonCorrector("chr1", a, b, files), 20.0)
+                if vlib.is_err(corr):
+                    res.append(("ill_short_introns", {"files": per_file}, corr))
+                    continue
+                io = {"short": sorted(list(x) for x in corr.short_introns),
+                      "counts": sorted([list(k), int(v)] for k, v in corr.counts.items())}
+                res.append(("ill_short_introns", {"files": per_file}, io))
+                if (a, b) == windows[0] and len(files) == 2:
+                    order = [list(x) for x in corr.short_introns]
+                    for name, t in sorted(truth.items()):
+                        ex = [tuple(e) for e in t["exons"]]
+                        out = guarded(lambda: vlib.canon(corr.correct_exons(list(ex))), 2.0)
+                        res.append(("ill_correct_exons", {"short": order, "exons": [list(e) for e in ex]}, out))
+    finally:
+        shutil.rmtree(d, ignore_errors=True)
+    return res
+
+
+def corr_illumina(ctx):
+    rng = ctx.rng
+    quick = ctx.tier == "quick"
+    M = _impl()
+    IL = M["IL"].IlluminaExonCorrector
+    cases = []
+    # ---- constants and the generated static predicates
+    mo = ctx.driver.run([vlib.req("C14.ill_constants")])[0]
+    _record(ctx, "ill_constants", {}, mo, {"MAX_SCORE": IL.MAX_SCORE, "EXON_LENGTH": IL.EXON_LENGTH, "SIDE_DIFF": IL.SIDE_DIFF,
+                                           "ABSENT_INTRON": list(IL.ABSENT_INTRON)}, True)
+    prim = []
+    for _ in range(1500 if quick else 15000):
+        a, b = rng.randint(-50, 3000), rng.randint(0, 400)
+        old = (a, a + b)
+        l0 = a + rng.choice(G.ILL_SIDE + [rng.randint(-60, 60)])
+        l1 = l0 + rng.randint(-3, 200)
+        r0 = l1 + rng.choice(G.ILL_MID + [-1, 0, -49, -50, -51, rng.randint(-80, 80)])
+        r1 = a + b + rng.choice(G.ILL_SIDE + [rng.randint(-60, 60)])
+        sc = rng.choice([IL.MAX_SCORE, 0, rng.randint(-200, 200)])
+        prim.append({"left": [l0, l1], "right": [r0, r1], "old": list(old), "score": sc})
+    outs = ctx.driver.run([vlib.req("C14.ill_prims", **kw) for kw in prim])
+    for kw, mo in zip(prim, outs):
+        l, r, o = tuple(kw["left"]), tuple(kw["right"]), tuple(kw["old"])
+        io = guarded(lambda: {"skipped_score": IL.skipped_score(l, r, o), "better_skipped": bool(IL.better_skipped(l, r, o, kw["score"])),
+                              "right_length": bool(IL.right_length(l, r, o)), "one_differs": bool(IL.one_differs(l, r, o))})
+        if isinstance(mo, dict):
+            mo = {k: v for k, v in mo.items() if k != "site_distance"}
+        _record(ctx, "ill_prims", kw, mo, io, isinstance(io, dict) and io.get("right_length") is True)
+    # ---- merge_dictionaries on random count dictionaries (order of the resulting dict = order of the model's list)
+    md = []
+    for _ in range(200 if quick else 2000):
+        keys = [(rng.randint(0, 12), rng.randint(13, 30)) for _ in range(rng.randint(0, 8))]
+        old = {k: rng.randint(1, 50) for k in keys[:rng.randint(0, len(keys))]}
+        new = {k: rng.randint(1, 50) for k in rng.sample(keys, rng.randint(0, len(keys)))}
+        for _ in range(rng.randint(0, 3)):
+            new[(rng.randint(0, 12), rng.randint(13, 30))] = rng.randint(1, 9)
+        md.append((old, new))
+    outs = ctx.driver.run([vlib.req("C14.ill_short_introns", files=[[[list(k), v] for k, v in o.items()],
+                                                                    [[list(k), v] for k, v in n.items()]]) for o, n in md])
+    for (o, n), mo in zip(md, outs):
+        io = guarded(lambda: [[list(k), v] for k, v in IL.merge_dictionaries(dict(o), dict(n)).items()])
+        _record(ctx, "merge_dictionaries", {"old": [[list(k), v] for k, v in o.items()], "new": [[list(k), v] for k, v in n.items()]},
+                mo.get("counts") if isinstance(mo, dict) and "counts" in mo else mo, io, bool(o) and bool(n))
+    # ---- correct_exons: fixed inputs (Lean witnesses and examples)
+    for short, ex in ILL_FIXED:
+        order, io = ill_real(short, ex)
+        cases.append(("ill_correct_exons", {"short": order, "exons": [list(e) for e in ex]}, io))
+    # ---- exhaustive small universe: read layouts x ordered lists of <= 2 (thorough: <= 3) junctions
+    layouts = [[(1, 2), (5, 7), (11, 13)], [(1, 1), (4, 4), (7, 8)], [(1, 3), (8, 12)], [(2, 3), (6, 6), (9, 10), (14, 15)]]
+    U = 12 if quick else 13
+    ivs = [(a, b) for a in range(1, U + 1) for b in range(a, U + 1)]
+    n_small = 0
+    for ex in layouts:
+        top = max(b for _, b in ex)
+        iv = [x for x in ivs if x[1] <= top + 2]
+        lists = [[]] + [[x] for x in iv] + [[x, y] for x in iv for y in iv if x != y]
+        for short in lists:
+            if quick and len(short) == 2 and rng.random() > 0.3:
+                continue
+            order, io = ill_real(short, ex)
+            cases.append(("ill_correct_exons", {"short": order, "exons": [list(e) for e in ex]}, io))
+            n_small += 1
+    if not quick:
+        iv3 = [(a, b) for a in range(3, 11) for b in range(a, 11)]
+        for ex in layouts[:2]:
+            for short in itertools.permutations(iv3, 3):
+                if rng.random() > 0.35:
+                    continue
+                order, io = ill_real(list(short), ex)
+                cases.append(("ill_correct_exons", {"short": order, "exons": [list(e) for e in ex]}, io))
+                n_small += 1
+    # ---- threshold universe: junction end points that decide the rules; ordered pairs (+ sampled triples / quadruples)
+    n_crit = 0
+    for ex, juncs in G.illumina_critical_universe():
+        for x in juncs:
+            order, io = ill_real([x], ex)
+            cases.append(("ill_correct_exons", {"short": order, "exons": [list(e) for e in ex]}, io))
+            n_crit += 1
+            for y in juncs:
+                if x == y or (quick and rng.random() > 0.12):
+                    continue
+                order, io = ill_real([x, y], ex)
+                cases.append(("ill_correct_exons", {"short": order, "exons": [list(e) for e in ex]}, io))
+                n_crit += 1
+        for _ in range(1500 if quick else 15000):
+            short = rng.sample(juncs, rng.choice([3, 3, 4, 5]))
+            order, io = ill_real(short, ex, as_set=rng.random() < 0.3)
+            cases.append(("ill_correct_exons", {"short": order, "exons": [list(e) for e in ex]}, io))
+            n_crit += 1
+    ctx.extra["illumina_universe"] = {"small": {"layouts": len(layouts), "max_coord": U, "junction_lists": "all ordered lists of <= %d junctions" % (2 if quick else 3),
+                                                "cases": n_small, "sampled": quick},
+                                      "threshold": {"layouts": 2, "cases": n_crit, "ordered_pairs_sampled": quick}}
+    # ---- random reads x ordered junction lists around the thresholds; every third case through a real Python set
+    for k in range(2500 if quick else 30000):
+        c = G.illumina_case2(rng) if k % 5 else G.illumina_case(rng)
+        order, io = ill_real(c["short"], c["exons"], as_set=(k % 3 == 0))
+        cases.append(("ill_correct_exons", {"short": order, "exons": c["exons"]}, io))
+        ctx.count("gen:illumina_junctions=%d" % min(len(order), 8))
+    # ---- the real constructor on synthetic short-read BAMs
+    for sd in ([ctx.seed % 1000 + 1] if quick else [ctx.seed % 1000 + k for k in (1, 2, 3, 4)]):
+        try:
+            cases += ill_bam_cases(ctx, sd)
+        except Exception as ex:
+            ctx.disagree("ill_short_introns", {"seed": sd}, None, {"error": "harness", "exc": repr(ex)})
+    lines = [vlib.req("C14." + op, **kw) for op, kw, _ in cases]
+    outs = ctx.driver.run(lines)
+    for (op, kw, io), mo in zip(cases, outs):
+        if op == "ill_correct_exons":
+            nt = (not vlib.is_err(mo)) and mo != vlib.canon(kw["exons"])
+        else:
+            nt = isinstance(mo, dict) and bool(mo.get("short"))
+            if isinstance(mo, dict) and "short" in mo:
+                mo = {"short": sorted(mo["short"]), "counts": sorted(mo["counts"])}
         _record(ctx, op, kw, mo, io, nt)
 
 
@@ -688,21 +879,54 @@ def unit_case_problems(case):
 ILL_LAST = {}
 
 
+def illumina_sources(exons, short):
+    """`IntronSource` of Props/C14Illumina.lean, written independently of the corrector: the read's introns, every
+    short-read junction the 4-bp rule accepts for a read intron it overlaps, every member of a pair the skipped-exon rule
+    accepts (<= 50 bp between the two, outer ends within 25 bp of the read intron's, not both equal); replacements
+    strictly inside the read"""
+    ri = [(exons[i][1] + 1, exons[i + 1][0] - 1) for i in range(len(exons) - 1) if exons[i][1] + 1 < exons[i + 1][0]]
+    start, end = exons[0][0], exons[-1][1]
+    src = set(ri)
+    for i in ri:
+        ov = [s for s in short if not (i[1] < s[0] or i[0] > s[1])]
+        for s in ov:
+            if (s == (i[0], i[1] + 4) or s == (i[0] - 4, i[1])) and start < s[0] and s[1] < end:
+                src.add(s)
+        for l in ov:
+            if not (abs(i[0] - l[0]) <= 25 and start < l[0]):
+                continue
+            for r in ov:
+                if l[1] < r[0] and r[0] - l[1] <= 50 and abs(r[1] - i[1]) <= 25 and r[1] < end and \
+                        (l[0] != i[0] or r[1] != i[1]):
+                    src.add(l)
+                    src.add(r)
+    return src
+
+
 def illumina_problems(case):
+    """the short-read clauses of C14 on the real IlluminaExonCorrector; `short` is used in list order when the case is
+    `ordered`, else through a Python set"""
     M = _impl()
     exons = [tuple(e) for e in case["exons"]]
-    short = {tuple(s) for s in case["short"]}
-    corr = M["IL"].IlluminaExonCorrector.from_data(short)
+    short_l = [tuple(s) for s in case["short"]]
+    short = set(short_l)
+    corr = M["IL"].IlluminaExonCorrector.from_data(short_l if case.get("ordered") else short)
     out = guarded(lambda: vlib.canon(corr.correct_exons(list(exons))), 2.0)
     if vlib.is_err(out):
+        if not exons:
+            return []          # the empty block list is outside the property (no alignment)
         return [("illumina_raises", "correct_exons raised %s" % out)]
     out = [tuple(e) for e in out]
     ILL_LAST["changed"] = out != exons
     res = []
-    if not out or not is_sd(out):
+    domain = is_sd(exons)                                   # read blocks sorted, disjoint, well formed
+    wf_short = all(a <= b for a, b in short)
+    if not domain:
+        return res
+    if wf_short and (not out or not is_sd(out)):
         res.append(("illumina_invalid_blocks", "corrected blocks %s" % (out,)))
-    if out and (out[0][0] != exons[0][0] or out[-1][1] != exons[-1][1]):
-        res.append(("illumina_ends_changed", "%s-%s -> %s-%s" % (exons[0][0], exons[-1][1], out[0][0], out[-1][1])))
+    if not out or (out[0][0] != exons[0][0] or out[-1][1] != exons[-1][1]):
+        res.append(("illumina_ends_changed", "%s-%s -> %s" % (exons[0][0], exons[-1][1], out[:1] + out[-1:])))
     ri = introns_between(exons)
     left = {a for a, _ in ri} | {a for a, _ in short}
     right = {b for _, b in ri} | {b for _, b in short}
@@ -710,6 +934,20 @@ def illumina_problems(case):
         l, r = out[i][1] + 1, out[i + 1][0] - 1
         if l <= r and (l not in left or r not in right):
             res.append(("illumina_site_provenance", "intron (%d,%d) has a site that is neither the read's nor a short-read junction's" % (l, r)))
+    # every block boundary: the read's end, or a site of an intron with a source inside the rules' tolerances
+    src = illumina_sources(exons, short)
+    after = {exons[0][0]} | {c[1] + 1 for c in src}
+    before = {exons[-1][1]} | {c[0] - 1 for c in src}
+    for b in out:
+        if b[0] not in after:
+            res.append(("illumina_site_tolerance", "block %s starts at %d: not the read's start and not right after a read intron "
+                        "or a short-read junction accepted by the 4-bp / skipped-exon rule" % (b, b[0])))
+        if b[1] not in before:
+            res.append(("illumina_site_tolerance", "block %s ends at %d: not the read's end and not right before a read intron "
+                        "or a short-read junction accepted by the 4-bp / skipped-exon rule" % (b, b[1])))
+    if not any(not (i[1] < s_[0] or i[0] > s_[1]) for i in ri for s_ in short) and out != exons and \
+            all(exons[k][1] + 1 < exons[k + 1][0] for k in range(len(exons) - 1)):
+        res.append(("illumina_not_identity", "no short-read junction overlaps a read intron, yet %s -> %s" % (exons, out)))
     return res
 
 
@@ -985,6 +1223,10 @@ def oracle(ctx, disagreements, broken):
                 if ex and is_sd([tuple(e) for e in ex]) and ex[0][0] >= 1:
                     for kind, detail in bed_printer_problems(ex):
                         ctx.fail(kind, {"level": "bed", "exons": ex}, detail)
+            elif op == "ill_correct_exons" and isinstance(inp, dict) and "exons" in inp:
+                case = {"exons": inp["exons"], "short": inp["short"], "ordered": True}
+                for kind, detail in illumina_problems(case):
+                    ctx.fail(kind, {"level": "illumina", "case": case}, detail)
         except Exception as ex:   # the oracle must survive malformed disagreement records
             ctx.notes.append("oracle: could not evaluate disagreement %s: %r" % (op, ex))
         n_unit += 1
@@ -1003,8 +1245,8 @@ def oracle(ctx, disagreements, broken):
         n_unit += 1
     n_ill = 0
     n_ill_changed = 0
-    for _ in range(1500 if quick else 30000):
-        case = G.illumina_case(rng)
+    for k_ in range(3000 if quick else 40000):
+        case = G.illumina_case2(rng) if k_ % 2 else G.illumina_case(rng)
         probs = illumina_problems(case)
         for kind, detail in probs:
             ctx.fail(kind, {"level": "illumina", "case": case}, detail)
